@@ -52,8 +52,26 @@ Fixpoint sorted_from (u lo hi : Z) (cs : list cue) : bool :=
   | [] => true
   | (s, e) :: t => (lo <=? s) && (s + u <=? e) && (e <? hi) && sorted_from u e hi t
   end.
+(* without SAMI on the chain a cue may be shorter than the unit (even of length 0): it then floors to a
+   zero-length cue that is kept; what is needed is that neighbours start in different units (equal spans
+   would be merged by the SRT writer) and - with MicroDVD on the chain - that no cue lies inside frame 0
+   (the spelling {0}{0} is the frame-rate header: recorded finding) *)
+Fixpoint starts_apart (u lo hi : Z) (cs : list cue) : bool :=
+  match cs with
+  | [] => true
+  | (s, e) :: t =>
+      (lo <=? s) && (s <=? e) && (e <? hi)
+      && match t with (s', _) :: _ => fl u s <? fl u s' | [] => true end
+      && starts_apart u e hi t
+  end.
+
+Definition no_frame0 (u : Z) (cs : list cue) : bool :=
+  forallb (fun c : cue => (u <? 40000) || (40000 <=? snd c)) cs.
+
 Definition chain_dom (chain : list fmt) (cs : list cue) : bool :=
-  sorted_from (coarsest chain) 0 82800000000 cs.      (* below 23 h: the SAMI tail stays below 24 h *)
+  if existsb is_sami chain
+  then sorted_from (coarsest chain) 0 82800000000 cs      (* below 23 h: the SAMI tail stays below 24 h *)
+  else starts_apart (coarsest chain) 0 82800000000 cs && no_frame0 (coarsest chain) cs.
 
 Definition cues_eqb (a b : list cue) : bool :=
   (length a =? length b)%nat &&
@@ -71,3 +89,9 @@ Definition ok_chain (chain : list fmt) (cs : list cue) (pass1 pass2 : result (li
   | Ok o1, Ok o2 => cues_close (coarsest chain) (expected chain cs) o1 && cues_eqb o1 o2
   | _, _ => false
   end.
+
+(* several languages: every language keeps its name, its place and its own closed form *)
+Definition expected_set (chain : list fmt) (cs : capset) : capset :=
+  map (fun lc => (fst lc, expected chain (snd lc))) cs.
+Definition set_dom (chain : list fmt) (cs : capset) : bool :=
+  forallb carries_languages chain && forallb (fun lc => chain_dom chain (snd lc)) cs.
